@@ -604,16 +604,15 @@ try_match_header (const char *prefix,
 {
   if (NULL != *suffix)
     return MHD_NO;
-  while (0 != *line)
+  /* A header field name starts its line: the same text further to the
+     right is part of another field's value and must not be taken for
+     this header. */
+  if (MHD_str_equal_caseless_n_ (prefix,
+                                 line,
+                                 prefix_len))
   {
-    if (MHD_str_equal_caseless_n_ (prefix,
-                                   line,
-                                   prefix_len))
-    {
-      *suffix = strdup (&line[prefix_len]);
-      return MHD_YES;
-    }
-    ++line;
+    *suffix = strdup (&line[prefix_len]);
+    return MHD_YES;
   }
   return MHD_NO;
 }
@@ -688,8 +687,9 @@ find_boundary (struct MHD_PostProcessor *pp,
 
 
 /**
- * In buf, there maybe an expression '$key="$value"'.  If that is the
- * case, copy a copy of $value to destination.
+ * In buf, there maybe an expression '$key="$value"' (outside of the
+ * quoted value of another parameter).  If that is the case, copy a
+ * copy of $value to destination.
  *
  * If destination is already non-NULL, do nothing.
  */
@@ -708,9 +708,21 @@ try_get_value (const char *buf,
     return;
   bpos = buf;
   klen = strlen (key);
-  while (NULL != (spos = strstr (bpos, key)))
+  while ('\0' != *bpos)
   {
-    if ( (spos[klen] != '=') ||
+    if ('"' == *bpos)
+    {
+      /* the quoted value of another parameter: whatever looks like
+         '$key=' in there is part of that value, skip it as a whole */
+      if (NULL == (endv = strchr (bpos + 1,
+                                  '\"')))
+        return;                 /* no end-quote */
+      bpos = endv + 1;
+      continue;
+    }
+    spos = bpos;
+    if ( (0 != strncmp (spos, key, klen)) ||
+         (spos[klen] != '=') ||
          ( (spos != buf) &&
            (spos[-1] != ' ') ) )
     {
